@@ -338,7 +338,13 @@ class ElfiModel(GraphicalModel):
             update_observed = True
             obs = self.observed.pop(updating_name)
 
-        super(ElfiModel, self).update_node(name, updating_name)
+        try:
+            super(ElfiModel, self).update_node(name, updating_name)
+        except ValueError:
+            # Refused (would create a cycle): the updating node keeps its data
+            if update_observed:
+                self.observed[updating_name] = obs
+            raise
 
         # Move data to the updated node
         if update_observed:
